@@ -6,6 +6,10 @@ struct Principal { id: u64 }
 
 // [trusted:stand-in] ic_btc_types::Block — hash + header + opaque body
 struct Block { hash: BlockHash, header: Header, body: u64 }
+impl Clone for Block {
+    #[verifier::external_body]
+    fn clone(&self) -> (r: Self) ensures r == *self { unimplemented!() }
+}
 impl Block {
     fn block_hash(&self) -> (r: &BlockHash) ensures *r == self.hash { &self.hash }
     fn header(&self) -> (r: &Header) ensures *r == self.header { &self.header }
